@@ -252,7 +252,7 @@ RemoveKey(d, p) ==   \* remove the entry at path p (a dict key) / truncate a lis
       k == p[Len(p)]
       RECURSIVE Rm(_, _)
       Rm(x, q) == IF q = <<>>
-                  THEN (IF IsIdx(k) THEN (IF x.c = "list" THEN List(SubSeq(x.xs, 1, k.i)) ELSE x)
+                  THEN (IF IsIdx(k) THEN (IF x.c = "list" /\ k.i <= Len(x.xs) THEN List(SubSeq(x.xs, 1, k.i)) ELSE x)
                         ELSE IF x.c = "dict" THEN LET keep == {m \in 1..Len(x.ks) : x.ks[m] # k}
                                                       sq == SetToSeqK(keep) IN Dict([m \in 1..Len(sq) |-> x.ks[sq[m]]], [m \in 1..Len(sq) |-> x.vs[sq[m]]])
                         ELSE x)
